@@ -75,8 +75,11 @@ def run(ctx):
     # ---- R1 -----------------------------------------------------------------
     sink = repo.func(VF, "StreamSink.insert_stream_without_locking")
     dispatched = set()
+    from ..astutil import loop_targets, one
+
+    kind_var = one(loop_targets(sink, lambda t, n: t == "stream"), "loop over the incoming stream", VF)[0]
     for n in walk_own(sink):
-        if isinstance(n, ast.Compare) and norm(n.left) == "substream_type" and isinstance(n.ops[0], ast.Eq) and isinstance(n.comparators[0], ast.Constant):
+        if isinstance(n, ast.Compare) and norm(n.left) == kind_var and isinstance(n.ops[0], ast.Eq) and isinstance(n.comparators[0], ast.Constant):
             dispatched.add(n.comparators[0].value)
     where = f"{VF}:StreamSink.insert_stream_without_locking"
     ctx.check("R1-sink-rejects-unknown", where, len(dispatched) >= 6 and any(isinstance(n, ast.Raise) and "AssertionError" in norm(n) for n in walk_own(sink)), f"the sink dispatches {sorted(dispatched)} and raises on anything else")
